@@ -7,7 +7,6 @@ import (
 	"net/url"
 	"sort"
 	"strings"
-	"unicode/utf8"
 
 	"github.com/resgateio/resgate/server/codec"
 )
@@ -219,10 +218,8 @@ origin:
 	for _, s := range os {
 		t := o
 		for s != "" && t != "" {
-			sr, size := utf8.DecodeRuneInString(s)
-			s = s[size:]
-			tr, size := utf8.DecodeRuneInString(t)
-			t = t[size:]
+			sr, tr := s[0], t[0]
+			s, t = s[1:], t[1:]
 			if sr == tr {
 				continue
 			}
